@@ -22,7 +22,7 @@ Grammar (everything else is refused)
   statements   docstring | pass | x = e | a, b = e1, e2 | x += e | x -= e | x.append(e) (x a list created in the method)
                | self.items.insert(i, e) | self.keys.insert(i, e) | self.items.append(e) | self.keys.append(e)
                | del self.items[i] | del self.keys[i] | del self.items[a:b] | del self.keys[a:b] | del x[i]
-               | self.insert(e) | self.remove(e) | self.clear() | if/elif/else
+               | self.items.clear() | self.keys.clear() | self.insert(e) | self.remove(e) | self.clear() | if/elif/else
                | for <name | (name, name)> in <iterable>: ... [else: ...] with break / continue
                | return | return None | return e (only as the result of __len__ / __getitem__ / __iter__)
   iterables    self | self.items | self.keys | a list | reversed(list) | list(iterable) | enumerate(iterable[, start])
@@ -707,6 +707,8 @@ class FnTr(object):
                     refuse(c, "self.%s.append(%s)" % (fld, tv))
                 x = self.temp()
                 return pad + self.emit(binds) + "%s <- get_%s ;; set_%s (%s ++ [%s]) ;;;\n" % (x, fld, fld, x, v) + nxt(env)
+            if f.attr == "clear" and not c.args:
+                return pad + "set_%s nil ;;;\n" % fld + nxt(env)
             refuse(c, "self.%s.%s(...)" % (fld, f.attr))
         # x.append(e) on a list created here
         if isinstance(f.value, ast.Name) and f.attr == "append" and len(c.args) == 1:
